@@ -16,7 +16,9 @@ import sys
 import tempfile
 
 HERE = os.path.dirname(os.path.dirname(os.path.abspath(__file__)))
-SRC = '/tmp/seed-out'
+SRC = os.environ.get('SEED_SRC', '/tmp/seed-out')
+# round two files its changes A/B as C/D
+RENAME = dict(x.split(':') for x in os.environ.get('SEED_RENAME', 'A:A,B:B').split(','))
 PY = '/venv/bin/python'
 
 
@@ -33,6 +35,7 @@ def sh(cmd, cwd=None, timeout=600):
 
 def main():
     only = sys.argv[1:] or None
+    rnd = 'second round (asked for rarer triggers; told what round one had done)' if RENAME.get('A') != 'A' else 'first round'
     kept = []
     for prop in sorted(os.listdir(SRC)):
         d = os.path.join(SRC, prop)
@@ -73,18 +76,18 @@ def main():
                     prop, v, 'pass' if rc_t == 0 else 'FAIL', tests_line[-40:], rc_m, rc_c, 'KEEP' if ok else 'REJECT'))
                 if not ok:
                     continue
-                dst = os.path.join(HERE, 'seeded', '%s-%s' % (prop, v))
+                dst = os.path.join(HERE, 'seeded', '%s-%s' % (prop, RENAME[v]))
                 os.makedirs(dst, exist_ok=True)
                 shutil.copy(diff, os.path.join(dst, 'patch.diff'))
                 shutil.copy(demo, os.path.join(dst, 'demo.py'))
                 m = meta_all.get(v, {}) if isinstance(meta_all, dict) else {}
                 meta = {
-                    'id': '%s-%s' % (prop, v),
+                    'id': '%s-%s' % (prop, RENAME[v]),
                     'breaks_property': prop,
                     'summary': m.get('summary'),
                     'needs_to_manifest': m.get('needs'),
                     'files': files,
-                    'origin': 'independent sub-agent given only the property text and a scratch worktree of /repo',
+                    'origin': 'independent sub-agent given only the property text and a scratch worktree of /repo; ' + rnd,
                     'confirmed': {
                         'how': 'tools/ingest_seeded.py on scratch copies of /repo (rsync, removed afterwards)',
                         'tests_with_change': tests_line,
